@@ -348,7 +348,8 @@ pub fn check_multi_site(seed: u64, st: &mut Stats) {
         Ok(s) => s,
         Err(_) => return,
     };
-    let one = |ops: &[&str]| WyckoffSite { letter: 'b', symmetries: ops.iter().filter_map(|o| Transform2::from_operations(o).ok()).collect(), num_rotations: 1, mirror_primary: false, mirror_secondary: false };
+    let flags = (rng.gen_range(0u64, 5), rng.gen_bool(0.3), rng.gen_bool(0.3));
+    let one = |ops: &[&str]| WyckoffSite { letter: 'b', symmetries: ops.iter().filter_map(|o| Transform2::from_operations(o).ok()).collect(), num_rotations: flags.0, mirror_primary: flags.1, mirror_secondary: flags.2 };
     // extra sites of multiplicity 1 (and 2): fewer copies than the general position
     let mut sites = vec![general.clone()];
     let many = rng.gen_range(0, 12) == 0;
